@@ -177,7 +177,8 @@ PROPS = {
                   {"engine": "front", "test": "TestProp_C18_FileCrash", "quick": 150, "thorough": 3000},
                   {"engine": "front", "test": "TestProp_C18_MgmtRollback", "quick": 60, "thorough": 600},
                   {"engine": "front", "test": "TestProp_C18_GlobalReload", "quick": 600, "thorough": 40000, "shards": {"quick": 4}},
-                  {"engine": "front", "test": "TestProp_C18_RateReload", "quick": 600, "thorough": 40000, "shards": {"quick": 4}}],
+                  {"engine": "front", "test": "TestProp_C18_RateReload", "quick": 600, "thorough": 40000, "shards": {"quick": 4}},
+                  {"engine": "front", "test": "TestProp_C18_OutboundReload", "quick": 128, "thorough": 3200, "shards": {"quick": 16, "thorough": 16}, "needs_bins": ["hookaido"]}],
     },
     "C01": {
         "rule": "process tier: the real `hookaido run` binary (verif build) on a SQLite file with a 2-3 target fan-out deliver route (targets on a closed "
